@@ -382,6 +382,15 @@ pub fn run_live(rep: &mut Report, targets: u64) {
         let ex = b.anon(2, 4, 5, Fill::Pattern);
         let nx = b.anon(2, 4, 6, Fill::Pattern);
         let (exa, nxa) = (b.spec.regions[ex].addr, b.spec.regions[nx].addr);
+        // an executable FILE mapping directly followed by an inaccessible anonymous reservation (what
+        // the dynamic linker leaves behind a library): the writer widens the module over it, but a
+        // pointer into the reservation is not a pointer into an executable mapping
+        b.spec.dir = crate::target::new_dir("c12");
+        let fpath = format!("{}/libc12-text.so", b.spec.dir);
+        std::fs::write(&fpath, vec![0xc3u8; PAGE as usize]).expect("write");
+        let fa = b.alloc(3, 7);
+        b.add_region(Region { addr: fa, len: PAGE, prot: 5, kind: RegionKind::File { path: fpath, offset: 0 }, fill: Fill::Keep, pokes: Vec::new(), unlink_after: false });
+        b.add_region(Region { addr: fa + PAGE, len: 2 * PAGE, prot: 0, kind: RegionKind::Anon, fill: Fill::Keep, pokes: Vec::new(), unlink_after: false });
         // every third target has more threads than a size limit keeps at full length: the stacks of
         // the threads beyond the 20th are shortened AND sanitized
         let many = ti % 3 == 2;
@@ -407,6 +416,12 @@ pub fn run_live(rep: &mut Report, targets: u64) {
                 SENTINEL,
                 0,
                 libc_text_addr(),
+                // module text, then its reservation, twice (a lookup remembered from the word before
+                // must not vouch for the next one)
+                fa + 16,
+                fa + PAGE + 8,
+                fa + 32,
+                fa + 2 * PAGE + 16,
             ];
             for v in vals {
                 if k + 8 <= pages * PAGE {
